@@ -43,7 +43,8 @@ theorem GS.inert {W : World} (h : GS fr df w) (hW : GInv noEx fr W) (hi : Inert 
 
 /-- an update of the objects: `need` may go up by the amount the deficit goes up -/
 theorem GS.bump {W : World} (h : GS fr df w) (hW : GInv noEx fr W) (hev : W.ev = w.ev) (hgd : W.guards = w.guards)
-    (hp : W.procs = w.procs) (hgo : ∀ d, gOf W d = gOf w d) (hn : ∀ d, need W d + df d ≤ need w d + df' d) : GS fr df' W := by
+    (hp : ∀ x, (W.proc x).awaits = (w.proc x).awaits) (hgo : ∀ d, gOf W d = gOf w d)
+    (hn : ∀ d, need W d + df d ≤ need w d + df' d) : GS fr df' W := by
   refine ⟨hW, ?_, ?_⟩
   · intro d g hd gd hgg k hk
     rw [hgo] at hd; rw [hgd] at hgg
@@ -52,9 +53,28 @@ theorem GS.bump {W : World} (h : GS fr df w) (hW : GInv noEx fr W) (hev : W.ev =
     rw [hgo] at hd
     obtain ⟨k, hk⟩ := hq
     have h1 := h.gi d g hd ⟨k, (queued_congr hgd g k).1 hk⟩
-    have h2 : G W g = G w g := G_congr hev (fun x => by unfold World.proc; rw [hp]) g
+    have h2 : G W g = G w g := G_congr hev hp g
     have := hn d
     omega
+
+/-- nothing available at `d0`: whatever deficit was booked there is void -/
+theorem GI.clear (hgi : GI df w) (d0 : Demand) (h0 : need w d0 = 0) (hdf : ∀ d, d ≠ d0 → df d ≤ df' d) : GI df' w := by
+  intro d g hd hq
+  by_cases hdd : d = d0
+  · subst hdd; omega
+  · have := hgi d g hd hq
+    have := hdf d hdd
+    omega
+
+theorem GS.clear (h : GS fr df w) (d0 : Demand) (h0 : need w d0 = 0) (hdf : ∀ d, d ≠ d0 → df d ≤ df' d) : GS fr df' w :=
+  ⟨h.ginv, h.hg, h.gi.clear d0 h0 hdf⟩
+
+/-- homogeneity and the grant invariant (what a command has to re-establish besides `GInv`) -/
+def GH (df : Demand → Nat) (w : World) : Prop := HG w ∧ GI df w
+
+theorem GS.gh (h : GS fr df w) : GH df w := ⟨h.hg, h.gi⟩
+
+theorem GH.inert {W : World} (h : GH df w) (hi : EvInv w.ev) (hin : Inert w W) : GH df W := ⟨h.1.inert hin, h.2.inert hi hin⟩
 
 /-! ### entering a wait -/
 
@@ -199,7 +219,8 @@ theorem GS.leave (h : GS fr df w) {p : Pid} {f : Frame} {g : Nat} (hfr : fr p = 
       intro e1 h1 e2 h2 g1 g2 b1 b2
       rw [hevA] at h1 h2
       exact hp.gu e1 h1 e2 h2 (Or.inl g1) (Or.inl g2) (b1.trans b2.symm) (noEx_not _)
-    obtain ⟨hgi1, hq1⟩ := GI.guardWithdraw hqA hgiA g p hown hu (fun _ _ _ => noEx_not _)
+    obtain ⟨hgi1, hq1⟩ := GI.guardWithdraw (df' := df) hqA hgiA g p hown hu (fun _ _ _ => noEx_not _)
+      (fun _ _ => Nat.le_refl _) (fun _ _ => ⟨fun _ => Nat.le_succ _, fun _ => Nat.le_refl _⟩)
     rw [removeAwait_fst_eq]
     refine ⟨hq1.hg.ofGuards rfl (fun d => gOf_congr rfl rfl rfl rfl rfl d), ?_⟩
     exact hgi1.modAwaits hq1.ei p _ hng hb0
